@@ -12,6 +12,7 @@ import (
 	"syscall"
 	"time"
 
+	"github.com/feichai0017/NoKV/kv"
 	"github.com/feichai0017/NoKV/metrics"
 )
 
@@ -418,6 +419,13 @@ func (s *redisServer) execExists(w *bufio.Writer, keys [][]byte) error {
 	return writeInteger(w, count)
 }
 
+// Protocol limits (the same as Redis): a declared length above them is a
+// protocol error rather than a reason to allocate.
+const (
+	maxRESPArrayLen = 1024 * 1024
+	maxRESPBulkLen  = 512 * 1024 * 1024
+)
+
 func parseRESP(r *bufio.Reader) ([][]byte, error) {
 	prefix, err := r.ReadByte()
 	if err != nil {
@@ -436,7 +444,12 @@ func parseRESP(r *bufio.Reader) ([][]byte, error) {
 		if n < 0 {
 			return nil, nil
 		}
-		out := make([][]byte, 0, n)
+		if n > maxRESPArrayLen {
+			return nil, fmt.Errorf("invalid multibulk length %q", line)
+		}
+		// the declared count is untrusted: let append grow with the arguments
+		// that actually arrive
+		out := make([][]byte, 0, min(n, 16))
 		for range n {
 			b, err := r.ReadByte()
 			if err != nil {
@@ -457,8 +470,12 @@ func parseRESP(r *bufio.Reader) ([][]byte, error) {
 				out = append(out, nil)
 				continue
 			}
-			buf := make([]byte, l)
-			if _, err := io.ReadFull(r, buf); err != nil {
+			if l > maxRESPBulkLen {
+				return nil, fmt.Errorf("invalid bulk length %q", line)
+			}
+			// the declared length is untrusted: grow the buffer as data arrives
+			buf, err := kv.ReadFullGrowing(r, nil, l)
+			if err != nil {
 				return nil, err
 			}
 			if err := expectCRLF(r); err != nil {
